@@ -137,6 +137,9 @@ def run_value_cases(chk, cases, jobs, label, expr, on_bad, per_value=True, timeo
         for vi, rv in enumerate(r["values"]):
             if "set_error" in rv:
                 chk.coverage["value_rejected_by_api"] = chk.coverage.get("value_rejected_by_api", 0) + 1
+                chk.violation("set-%s-%d-%d" % (label, j["id"], vi),
+                              dict(describe(cases, jobs, res, j["id"], vi),
+                                   kind="a value that is well-typed for the schema is rejected by the Python API (%s)" % rv["set_error"]))
                 continue
             chk.count()
             entries.append((j["id"], vi, rv))
